@@ -215,7 +215,13 @@ impl ParsedFormula {
     }
 
     pub fn to_free_index(&self, ns: &NamedSymbol) -> usize {
-        self.raw2free[ns.id].unwrap_or_else(|| panic!("{} is not a free variable", ns))
+        // raw2free is parallel to `vars`; ids are not dense under a custom ordering, so look
+        // the position of the variable up instead of using its id as the position
+        self.vars
+            .binary_search_by(|v| v.id.cmp(&ns.id))
+            .ok()
+            .and_then(|position| self.raw2free[position])
+            .unwrap_or_else(|| panic!("{} is not a free variable", ns))
     }
 
     pub fn extract_vars(tokens: &[SymbolicBDDToken]) -> Vec<NamedSymbol> {
